@@ -25,6 +25,7 @@ def _head(t):
 
 
 I_drop_value = [None]
+I_ordered = [None]
 
 
 def callee_key(c):
@@ -1077,10 +1078,51 @@ def build_table(I):
         r = a[0]
         m = deref(I, st, r)
         items = []
-        for kk, v in m.items:
+        for kk, v in ordered(m):
             kcell = st.alloc(unkey(kk))
             items.append(Tup([Ref(kcell, ()), Ref(r.cell, r.path + (("k", kk),), False)]))
         return Iter("items", items)
+
+    def ordered(m):
+        """Entries of a map in iteration order: a BTreeMap iterates in key order (decided here only for concrete keys)."""
+        if m.kind != "btree" or len(m.items) < 2:
+            return list(m.items)
+        def rank(kk):
+            if isinstance(kk, tuple) and kk[0] == "D":
+                if kk[1]:
+                    raise _i.Unsupported("order of symbolic date keys")
+                return (0, kk[2])
+            if isinstance(kk, tuple) and kk[0] == "E":
+                return (1, kk[2])
+            if isinstance(kk, tuple):
+                return (2,) + tuple(kk[1:])
+            return (3, kk)
+        try:
+            return sorted(m.items, key=lambda it: rank(it[0]))
+        except TypeError:
+            return list(m.items)
+    I_ordered[0] = ordered
+
+    @reg("BTreeMap::first_key_value", "BTreeMap::last_key_value")
+    def bt_first_last(I, st, a, c):
+        r = a[0]
+        m = deref(I, st, r)
+        if not m.items:
+            return none()
+        its = ordered(m)
+        kk, _ = its[0] if "first" in c.split("::")[-1] else its[-1]
+        return some(Tup([Ref(st.alloc(unkey(kk)), ()), Ref(r.cell, r.path + (("k", kk),), False)]))
+
+    @reg("BTreeMap::pop_first", "BTreeMap::pop_last")
+    def bt_pop(I, st, a, c):
+        r = a[0]
+        m = deref(I, st, r)
+        if not m.items:
+            return none()
+        its = ordered(m)
+        kk, v = its[0] if "first" in c.split("::")[-1] else its[-1]
+        I.write(st, r.cell, r.path, MapV(m.kind, [(x, y) for x, y in m.items if x != kk]))
+        return some(Tup([unkey(kk), v]))
 
     def unkey(kk):
         if isinstance(kk, tuple) and kk[0] == "E":
@@ -1099,7 +1141,7 @@ def build_table(I):
     def hm_values(I, st, a, c):
         r = a[0]
         m = deref(I, st, r)
-        return Iter("items", [Ref(r.cell, r.path + (("k", kk),), False) for kk, _ in m.items])
+        return Iter("items", [Ref(r.cell, r.path + (("k", kk),), False) for kk, _ in ordered(m)])
 
     @reg("HashMap::values_mut", "BTreeMap::values_mut")
     def hm_values_mut(I, st, a, c):
@@ -1110,7 +1152,7 @@ def build_table(I):
     @reg("HashMap::keys", "BTreeMap::keys")
     def hm_keys(I, st, a, c):
         m = deref(I, st, a[0])
-        return Iter("items", [Ref(st.alloc(unkey(kk)), ()) for kk, _ in m.items])
+        return Iter("items", [Ref(st.alloc(unkey(kk)), ()) for kk, _ in ordered(m)])
 
     @reg("HashMap::contains_key", "BTreeMap::contains_key")
     def hm_contains_key(I, st, a, c):
@@ -1215,6 +1257,8 @@ def build_table(I):
             return Iter("range", (), 0, extra=v)
         if isinstance(v, (VecV, Arr)):
             return Iter("items", v.items)
+        if isinstance(v, MapV):      # by-value iteration of a map: (key, value) pairs
+            return Iter("items", [Tup([unkey(kk), x]) for kk, x in ordered(v)])
         if isinstance(v, Enum) and v.ty == "Option":
             return Iter("opt", (), 0, extra=v)
         if isinstance(v, Ref):
